@@ -10,7 +10,7 @@ for d in $dirs; do
   git -C /repo apply "$PWD/$d/patch.diff" || { echo "$d: patch does not apply"; continue; }
   : > "$d/check_output.txt"
   for p in $props; do
-    s=$(date +%s); out=$(./check "$p" 2>&1); rc=$?; e=$(date +%s)
+    s=$(date +%s); out=$(VERIF_EVIDENCE_DIR=/var/tmp/verif-seeded-evidence ./check "$p" 2>&1); rc=$?; e=$(date +%s)
     echo "### ./check $p -> exit $rc ($((e-s)) s)" >> "$d/check_output.txt"
     echo "$out" | grep -E "^(VIOLATION|UNDECIDED|KNOWN-FINDING|  failed|\[)" >> "$d/check_output.txt"
     echo "$d $p rc=$rc $((e-s))s"
